@@ -187,6 +187,8 @@ theorem setItemIdx_ok (f : Frame) (k : Nat) (v : PyVal) (hk : k < f.bits) (hd : 
 theorem occ_lt : ∀ x : Fin 1024, (x.val ||| 0b1111 != 0b1111) = false → x.val < 16 := by
   decide +kernel
 
+theorem occ_ge : ∀ x : Fin 16, (x.val ||| 0b1111 != 0b1111) = false := by decide
+
 theorem occ_flags : ∀ x : Fin 16,
     (x.val &&& 1 == 1) = decide (x.val % 2 = 1) ∧ (x.val &&& 2 == 2) = decide (x.val / 2 % 2 = 1) ∧
     (x.val &&& 4 == 4) = decide (x.val / 4 % 2 = 1) ∧ (x.val &&& 8 == 8) = decide (x.val / 8 % 2 = 1) := by
